@@ -76,6 +76,31 @@ def grep_forbidden():
     return hits
 
 
+def soft_failure(mod, out):
+    """True when every proof that failed in this module is one of the designated hand inductions over the shape of a
+    translated loop (props.SOFT_THEOREMS): those are re-proved when the loop has the shape they were written for and
+    are otherwise recorded as not re-proved (the tie falls back to the correspondence), never raised as an alarm."""
+    soft = getattr(props, "SOFT_THEOREMS", {}).get(mod)
+    if not soft:
+        return False
+    path = os.path.join(LEAN, *mod.split(".")) + ".lean"
+    rel = os.path.join(*mod.split(".")) + ".lean"
+    lines = open(path).read().split("\n")
+    errs = [int(m.group(1)) for m in re.finditer(r"error: " + re.escape(rel) + r":(\d+):\d+", out)]
+    if not errs:
+        return False
+    for ln in errs:
+        name = None
+        for i in range(min(ln, len(lines)) - 1, -1, -1):
+            mm = re.match(r"(?:private\s+)?(theorem|lemma|def|example|instance|macro)\s*([A-Za-z_][A-Za-z0-9_.']*)?", lines[i])
+            if mm:
+                name = mm.group(2) if mm.group(1) in ("theorem", "lemma") else None
+                break
+        if name not in soft:
+            return False
+    return True
+
+
 def theorems_of(path, ns):
     if not os.path.exists(path):
         return []
@@ -169,7 +194,7 @@ def proof_half(prop, tier):
             ok, out = lake_build([m])
             if ok:
                 built.append(m)
-            elif m in getattr(props, "SOFT_BRIDGES", []):
+            elif m in getattr(props, "SOFT_BRIDGES", []) or soft_failure(m, out):
                 info.setdefault("bridges_not_reproved", {})[m] = out[-600:]
             else:
                 failed_mods.append((m, out[-3000:]))
